@@ -15,6 +15,7 @@ from frozendict import frozendict
 
 import labtech
 from labtech.storage import LocalStorage
+from labtech.exceptions import TaskError
 from labtech.tasks import find_tasks_in_param, get_direct_dependencies
 from labtech.types import is_task
 
@@ -77,6 +78,15 @@ def vcase_term(spec, st, t):
 
 def mon_C15(spec, st, t):
     bad = V.contains_bad(spec)
+    if bad and st != 'unbuildable':
+        # the same tree handed to a task type without a cache (no serialisation happens at construction) is rejected too
+        try:
+            U.VN(x=V.build(spec))
+            return ('accepted-unsupported', 'an unsupported value or non-string dict key was accepted by a task type with cache=None')
+        except TaskError:
+            pass
+        except BaseException as e:   # noqa
+            return ('wrong-exception', f'constructor of a cache=None task type raised {e!r} instead of TaskError')
     if st == 'other':
         return ('wrong-exception', f'constructor raised {t} instead of TaskError')
     if st == 'taskerror':
@@ -403,12 +413,54 @@ def stage_store_roundtrip(report, tier, rng, dist, prop='C09'):
                 lab.run_tasks(got, disable_progress=True, disable_top=True)
                 if U.VRUN_COUNT[0] != before:
                     report.violation(f'{prop}:rerun-executed', 'running the tasks returned by cached_tasks executed them instead of loading the stored results', dict(type=ty.__qualname__, level='store'))
+            # the same Lab object once more, after entries were replaced and removed: a listing reflects the storage as it is now
+            sub = [t for t, _ in uniq if type(t) in types and not V_is_nested_only(t, tasks)][:6]
+            if sub:
+                try:
+                    lab.run_tasks(sub, bust_cache=True, disable_progress=True, disable_top=True)
+                    listed = {g.cache_key: g for ty in {type(t) for t in sub} for g in lab.cached_tasks([ty])}
+                    for t in sub:
+                        g = listed.get(t.cache_key)
+                        if g is None:
+                            report.violation(f'{prop}:not-listed-after-rerun', 'a task re-run with bust_cache=True is missing from cached_tasks on the same Lab',
+                                             dict(type=type(t).__qualname__, level='store'))
+                            break
+                        if (t.result_meta is not None and g.result_meta is not None and
+                                (g.result_meta.start != t.result_meta.start or abs((g.result_meta.duration - t.result_meta.duration).total_seconds()) > 2e-6)):
+                            report.violation(f'{prop}:stored-meta-differs', f'after a bust_cache re-run on the same Lab, cached_tasks returns result_meta {g.result_meta} '
+                                                                            f'while the entry now records {t.result_meta}', dict(type=type(t).__qualname__, level='store'))
+                            break
+                    lab.uncache_tasks(sub[:2])
+                    still = {g.cache_key for ty in {type(t) for t in sub[:2]} for g in lab.cached_tasks([ty])}
+                    if any(t.cache_key in still for t in sub[:2]):
+                        report.violation(f'{prop}:listed-after-uncache', 'cached_tasks on the same Lab still lists a task after uncache_tasks removed it',
+                                         dict(type=type(sub[0]).__qualname__, level='store'))
+                except BaseException as e:   # noqa
+                    report.violation(f'{prop}:cached-tasks-raised', f'rerun / listing / uncache sequence on one Lab raised {e!r}', dict(level='store'))
             dist['store_roundtrip_tasks'] = done
     finally:
         shutil.rmtree(d, ignore_errors=True)
     return done
 
-def stage_listing(report, tier, rng, dist):
+
+def run_store_stage(prop, report, tier, seed, replay=None):
+    """The store-level stages on their own (for properties whose main harness is another one): real save / cached_tasks round
+    trips with their monitors, and the listing correspondence."""
+    rng = rng_for(seed, prop, 'store')
+    dist = Counter()
+    n = stage_store_roundtrip(report, tier, rng, dist, prop=prop)
+    q = stage_listing(report, tier, rng, dist, prop=prop) if replay is None else 0
+    report.coverage.update(evaluations=n + q, traces_validated_against_impl=q,
+                           rule='store stage: tasks of ten types with generated parameter trees run and cached in one storage, cached_tasks per type; '
+                                'listing queries on storages salted with foreign entries against Model/Listing.v',
+                           distribution=dict(sorted(dist.items())))
+
+
+def V_is_nested_only(t, tasks):
+    """True when t was only met as a parameter of another task (it was then stored by a run of its parent)."""
+    return not any(t is u for u, _ in tasks)
+
+def stage_listing(report, tier, rng, dist, prop='C09'):
     """Lab.cached_tasks against Model/Listing.v: storages filled by real runs of tasks of ten types (prefix-related names, the
     same name in several modules, two cache formats), then salted with foreign entries (an entry copied under a key that
     starts with another type's name, an entry whose metadata names another cache class or none, and - in some storages - an
@@ -504,10 +556,10 @@ def stage_listing(report, tier, rng, dist):
                 terms.append('{| lc_types := %s; lc_store := store_%d; lc_got := %s |}' % (g_list([tt(ty) for ty in q]), b, got_term))
                 kept.append(dict(storage_batch=b, query=[f'{ty.__module__}.{ty.__qualname__}' for ty in q], salted=salted))
         dist['listing_queries'] = len(terms)
-        bad = coq_failing('corr_C09_listing', imports + '\n'.join(defs) + '\n', terms, 'check_lcase deser_mode_src env2')
+        bad = coq_failing(f'corr_{prop}_listing', imports + '\n'.join(defs) + '\n', terms, 'check_lcase deser_mode_src env2')
         if bad:
             from common import coq_eval, decode_strs
-            shown = coq_eval('corr_C09_listing_show', imports + '\n'.join(defs) + '\n'
+            shown = coq_eval(f'corr_{prop}_listing_show', imports + '\n'.join(defs) + '\n'
                              + f'Definition c := {terms[bad[0]]}.\n'
                              + 'Eval vm_compute in (option_map (map (fun tm => (task_cls (fst tm), snd tm))) (cached_tasks deser_mode_src env2 (lc_types c) (lc_store c)),'
                                ' option_map (map (fun tm => (task_cls (fst tm), snd tm))) (lc_got c), map en_key (lc_store c)).\n')
